@@ -55,4 +55,4 @@ def run(rep, tier):
         rep.sample({k: e[k] for k in ("op", "sz", "koff", "rk", "pb", "ps", "pc")} | {"pt": e["outs"][0]["pt"]})
     log("[C01] %d programs, %d steps, %d rejected (sem)" % (kept, len(steps), nb))
     rep.assumptions += ["secret read through hook H5; phases computed by TLC", "N=8 (16 thorough), radices 2..6: realistic sizes are covered by C10's cross-back-end agreement only",
-                        "LWE: N_lwe in {1,5,16} (thorough up to 33), radices 3/5 (2..6), same radix for plaintext and ciphertext"]
+                        "LWE: N_lwe in {1,5,16} (thorough up to 33), radices 3/5 (2..6); the plaintext decrypted into uses the same or another radix of the set"]
